@@ -185,7 +185,14 @@ def qualified(prelude, block, opts, out, low, stack):
 def at_rule(kw, prelude, end, opts, out, low, stack, first):
     name = kw['t'][1]
     if name == 'import' and opts.get('import_sign') is not None:
-        out.append(('IMPORT', [flat(x) for x in strip_ws(prelude)], end is not None and kind(end) == 'Semicolon'))
+        def imp_flat(x):
+            f = flat(x)
+            if f[:2] == ('Function', 'url'):
+                strs = [c['t'][1] for c in x.get('children', []) if c['t'][0] == 'QuotedString']
+                if len(strs) == 1:
+                    return f + (strs[0],)
+            return f
+        out.append(('IMPORT', [imp_flat(x) for x in strip_ws(prelude)], end is not None and kind(end) == 'Semicolon'))
         return
     out.append(flat(kw))
     mark = len(out)
